@@ -594,14 +594,16 @@ int main(int argc, char** argv) {
 	int depth_done = 0;
 	for (int depth = 1; depth <= maxdepth && !frontier.empty(); depth++) {
 		if (vf::deadline_passed()) { top.capped(vf::strf("deadline before depth %d", depth)); break; }
-		// shard the frontier; workers write successors (canon \t json) to files
-		size_t nunits = std::min<size_t>(frontier.size(), (size_t) A.jobs * 8);
+		// small units (a few frontier nodes each) so that a worker death costs little; workers append successors
+		// (canon \t json) to one file per worker process
+		const size_t per_unit = 4;
+		size_t nunits = (frontier.size() + per_unit - 1) / per_unit;
 		vf::run_pool(nunits, pc,
 			[&](size_t u, const std::vector<std::string>& skips, long, Stats& st) {
-				std::string path = A.rundir + "/succ." + std::to_string(depth) + "." + std::to_string(u);
-				FILE* f = fopen(path.c_str(), "w");
+				std::string path = A.rundir + "/succ." + std::to_string(depth) + "." + std::to_string(vf::g_slot) + "." + std::to_string(getpid());
+				FILE* f = fopen(path.c_str(), "a");
 				std::set<std::string> skip(skips.begin(), skips.end()); // histories that killed a worker (already reported)
-				for (size_t i = u; i < frontier.size(); i += nunits) {
+				for (size_t i = u * per_unit; i < std::min(frontier.size(), (u + 1) * per_unit); i++) {
 					if (vf::deadline_passed()) { st.capped(vf::strf("deadline inside depth %d", depth)); break; }
 					const Node& nd = frontier[i];
 					// recompute the model state of this node to know the enabled operations
@@ -642,8 +644,15 @@ int main(int argc, char** argv) {
 		// collect successors
 		std::vector<Node> next;
 		size_t succ_total = 0;
-		for (size_t u = 0; u < nunits; u++) {
-			std::string path = A.rundir + "/succ." + std::to_string(depth) + "." + std::to_string(u);
+		std::vector<std::string> succfiles;
+		{
+			std::string cmd = "ls " + A.rundir + "/succ." + std::to_string(depth) + ".* 2>/dev/null";
+			FILE* p = popen(cmd.c_str(), "r");
+			char buf[4096];
+			while (p && fgets(buf, sizeof buf, p)) { std::string l = buf; while (!l.empty() && (l.back() == '\n')) l.pop_back(); if (!l.empty()) succfiles.push_back(l); }
+			if (p) pclose(p);
+		}
+		for (auto& path : succfiles) {
 			std::ifstream in(path);
 			std::string line;
 			while (std::getline(in, line)) {
